@@ -8,6 +8,7 @@ import (
 	"math"
 	"sync"
 	"sync/atomic"
+	"time"
 
 	"github.com/prometheus/client_golang/prometheus"
 	"github.com/prometheus/client_golang/prometheus/vsched"
@@ -23,6 +24,7 @@ func main() { cli.Main("C02", runC02) }
 type op struct {
 	write bool
 	v     float64
+	ex    bool // ObserveWithExemplar (same shared operations as Observe; the exemplar store is an independent atomic.Value)
 }
 
 type callRec struct {
@@ -45,7 +47,11 @@ func mkTarget(summary bool, bounds []float64) target {
 
 func doOp(t target, o op) string {
 	if !o.write {
-		t.Observe(o.v)
+		if eo, ok := t.(prometheus.ExemplarObserver); ok && o.ex {
+			eo.ObserveWithExemplar(o.v, prometheus.Labels{"id": "x"})
+		} else {
+			t.Observe(o.v)
+		}
 		return emit.C(0)
 	}
 	var m dto.Metric
@@ -53,13 +59,18 @@ func doOp(t target, o op) string {
 		return emit.C(9)
 	}
 	if m.Summary != nil {
-		return emit.C(1, emit.Tup(emit.U(m.Summary.GetSampleCount()), emit.F(m.Summary.GetSampleSum()), emit.L(nil)))
+		return emit.C(1, emit.Tup(emit.U(m.Summary.GetSampleCount()), emit.F(m.Summary.GetSampleSum()), emit.L(nil), emit.L(nil)))
 	}
-	cum := make([]string, len(m.Histogram.Bucket))
-	for i, b := range m.Histogram.Bucket {
-		cum[i] = emit.U(b.GetCumulativeCount())
+	// finite buckets, and separately the explicit +Inf bucket (only present when it carries an exemplar)
+	var cum, inf []string
+	for _, b := range m.Histogram.Bucket {
+		if math.IsInf(b.GetUpperBound(), 1) {
+			inf = append(inf, emit.U(b.GetCumulativeCount()))
+		} else {
+			cum = append(cum, emit.U(b.GetCumulativeCount()))
+		}
 	}
-	return emit.C(1, emit.Tup(emit.U(m.Histogram.GetSampleCount()), emit.F(m.Histogram.GetSampleSum()), emit.L(cum)))
+	return emit.C(1, emit.Tup(emit.U(m.Histogram.GetSampleCount()), emit.F(m.Histogram.GetSampleSum()), emit.L(cum), emit.L(inf)))
 }
 
 func progsSx(progs [][]op) string {
@@ -95,7 +106,7 @@ func genProgs(r *emit.Rng, nthreads, maxOps int) [][]op {
 			if r.Chance(2, 5) {
 				progs[t] = append(progs[t], op{write: true})
 			} else {
-				progs[t] = append(progs[t], op{v: math.Ldexp(1, next)}) // distinct powers of two identify the observation
+				progs[t] = append(progs[t], op{v: math.Ldexp(1, next), ex: r.Chance(1, 3)}) // distinct powers of two identify the observation
 				next++
 			}
 		}
@@ -218,12 +229,25 @@ func runC02(c *cli.Ctx) error {
 				}()
 			}
 			close(start)
-			wg.Wait()
-			var all []callRec
-			for _, rr := range recs {
-				all = append(all, rr...)
+			done := make(chan struct{})
+			go func() { wg.Wait(); close(done) }()
+			flags := 0
+			select {
+			case <-done:
+			case <-time.After(20 * time.Second):
+				flags = 8 // a call never returned: deadlock / livelock
 			}
-			w.Add(emit.Tup(emit.I(kind), emit.FL(bounds), progsSx(progs), emit.L(nil), emit.L(nil), callsSx(all), emit.I(0)), true, fmt.Sprintf("threads:%d", nthreads))
+			var all []callRec
+			if flags == 0 {
+				for _, rr := range recs {
+					all = append(all, rr...)
+				}
+			}
+			w.Add(emit.Tup(emit.I(kind), emit.FL(bounds), progsSx(progs), emit.L(nil), emit.L(nil), callsSx(all), emit.I(flags)), true, fmt.Sprintf("threads:%d", nthreads))
+			if flags != 0 {
+				w.Extra["stopped_after_hang_at_run"] = it
+				break
+			}
 		}
 		if err := w.Flush(); err != nil {
 			return err
